@@ -100,3 +100,14 @@ Theorem C18_k_after_sound : forall tr,
   forall pre e suf ok, tr = pre ++ e :: suf -> In (ECloseRet ok) pre -> is_handler e = false.
 Proof. exact k_after_sound_rc. Qed.
 Print Assumptions C18_k_after_sound.
+
+(** connected_first, read off K_P's tag-4 monitor: in a recording it accepts,
+    the first notification handed to the application after a transport was
+    constructed (before that stream ends) is [Connected]. *)
+Theorem C18_connected_first : forall rc sc tr,
+  k_order rc sc tr = None ->
+  forall pre k mid e suf,
+    tr = pre ++ EFactory k :: mid ++ e :: suf ->
+    forallb quiet mid = true -> is_handler e = true -> e = EConn.
+Proof. exact k_order_connected_first. Qed.
+Print Assumptions C18_connected_first.
